@@ -65,7 +65,7 @@ def alias(prog, rep, spec, tag):
     if ok:
         st = sorted(st, key=lambda c: c.bb)
         rd, w1, w2 = st
-        d["read-14-from-0"] = q.const_int(rd.args[1]) == 0 and q.const_int(rd.args[2]) == 14
+        d["read-14-from-0"] = q.const_int(rd.args[1]) == 0 and q.const_or_array_len(b, rd.args[2]) == 14
         re_ = [c for c in b.calls() if c.is_("Read::read_exact")]
         cp = [c for c in b.calls() if (c.decl_s or "").endswith("copy_from_slice")]
         ck = [c for c in b.calls() if (c.decl_s or "").endswith("::checksum")]
